@@ -167,3 +167,24 @@ func TestFloat32RangeContract(t *testing.T) {
 		}
 	}
 }
+
+
+// floor / ceil / round models against package math on a boundary list (evaluated through the term evaluator)
+func TestRoundingModels(t *testing.T) {
+	xs := []float64{0, -0.0, 0.5, -0.5, 0.49999999999999994, -0.49999999999999994, 1.5, 2.5, -2.5, 28.999999999999996, 1e15 + 0.5, 4503599627370496.5, 4503599627370497, -4503599627370495.5, 1e300, -1e300, math.Inf(1), math.Inf(-1), 5e-324, 0.9999999999999999, -1.0000000000000002}
+	for _, x := range xs {
+		v := &Term{Op: OVar, S: SBV, W: 64, Name: "x"}
+		fx := mk(OFpOfBits, 0, v)
+		ev := newEval(Model{"x": math.Float64bits(x)})
+		check := func(name string, want float64) {
+			got := externals[name](nil, nil, []Value{fx}).(*Term)
+			bits := ev.eval(got)
+			if bits != math.Float64bits(want) {
+				t.Fatalf("%s(%v): model %v, math %v", name, x, math.Float64frombits(bits), want)
+			}
+		}
+		check("math.Floor", math.Floor(x))
+		check("math.Ceil", math.Ceil(x))
+		check("math.Round", math.Round(x))
+	}
+}
